@@ -172,6 +172,83 @@ def start_not_empty(prog: Program, rep, RID: str):
                       "HiGHS reports kModelEmpty, solve() takes that for an inconclusive status and returns False without trying k = 1", f.loc(loops[0]))
 
 
+def trivial_value_removal(prog: Program, rep, RID: str):
+    """Besides complements, the preprocessing drops numbers that need no element of their own: the total (the sum of all elements) and 0 (the empty sum).
+    Nothing else may be dropped outright - with multiplicities a number above the total is a valid input (2*g1 + g2 > g1 + g2) and must stay.  The guard of
+    `elements_to_remove.add(<the number itself>)` is evaluated over a grid of small integers: it may hold only where the number equals the total or 0."""
+    from rules.common import substitute_locals
+    f = prog.own_method("MinGenSet", "__init__")
+    n = 0
+    for lp in [x for x in walk_no_nested(f.node) if isinstance(x, ast.For) and isinstance(x.target, ast.Name)]:
+        v = lp.target.id
+        ldefs = {}
+        for s_ in ast.walk(lp):
+            if isinstance(s_, ast.Assign) and len(s_.targets) == 1 and isinstance(s_.targets[0], ast.Name):
+                ldefs[s_.targets[0].id] = substitute_locals(s_.value, dict(ldefs))
+        from rules.semantic import enclosing_tests
+        for c in [c for c in calls_in(lp) if isinstance(c.func, ast.Attribute) and c.func.attr in ("add", "append") and len(c.args) == 1 and norm(substitute_locals(c.args[0], ldefs)) == v]:
+            tests = [(substitute_locals(t, ldefs), pol) for t, pol in enclosing_tests(lp, c)]
+            if not tests:
+                raise AnalysisError(f"MinGenSet.__init__: `{norm(c)}` is unconditional: not recognised")
+
+            def ev(e, env):
+                if isinstance(e, ast.Constant):
+                    return e.value
+                if isinstance(e, ast.Name):
+                    return env[e.id]
+                if isinstance(e, ast.Attribute) and norm(e) in env:
+                    return env[norm(e)]
+                if isinstance(e, ast.BinOp) and isinstance(e.op, (ast.Add, ast.Sub, ast.Mult)):
+                    a, b = ev(e.left, env), ev(e.right, env)
+                    return a + b if isinstance(e.op, ast.Add) else (a - b if isinstance(e.op, ast.Sub) else a * b)
+                if isinstance(e, ast.UnaryOp) and isinstance(e.op, ast.Not):
+                    return not ev(e.operand, env)
+                if isinstance(e, ast.UnaryOp) and isinstance(e.op, ast.USub):
+                    return -ev(e.operand, env)
+                if isinstance(e, ast.BoolOp):
+                    vals = [ev(x, env) for x in e.values]
+                    return all(vals) if isinstance(e.op, ast.And) else any(vals)
+                if isinstance(e, ast.Compare):
+                    left = ev(e.left, env)
+                    for op, right in zip(e.ops, e.comparators):
+                        r = ev(right, env)
+                        if isinstance(op, (ast.In, ast.NotIn)):
+                            r = ev(right, env)
+                        tab = {ast.Eq: lambda a, b: a == b, ast.NotEq: lambda a, b: a != b, ast.Lt: lambda a, b: a < b, ast.LtE: lambda a, b: a <= b,
+                               ast.Gt: lambda a, b: a > b, ast.GtE: lambda a, b: a >= b, ast.In: lambda a, b: a in b, ast.NotIn: lambda a, b: a not in b}
+                        if type(op) not in tab:
+                            raise KeyError("operator")
+                        if not tab[type(op)](left, r):
+                            return False
+                        left = r
+                    return True
+                if isinstance(e, (ast.Tuple, ast.List, ast.Set)):
+                    return [ev(x, env) for x in e.elts]
+                raise KeyError(norm(e))
+            n += 1
+            key = "MinGenSet.__init__:trivial-values-only"
+            bad = None
+            try:
+                for total in (5,):
+                    for mult in (1, 3):
+                        for val in range(0, 12):
+                            env = {v: val, "total": total, "self.total": total, "self.max_multiplicity": mult, "max_multiplicity": mult, "self.numbers": list(range(0, 12)),
+                                   "numbers": list(range(0, 12))}
+                            holds = all(bool(ev(t, env)) == pol for t, pol in tests)
+                            if holds and val not in (0, total):
+                                bad = bad or (val, total, mult)
+            except KeyError as e_:
+                raise AnalysisError(f"MinGenSet.__init__: the guard of `{norm(c)}` cannot be evaluated ({e_})")
+            if bad:
+                rep.violation(RID, key, f"`{norm(c)}` under `{' and '.join(('' if pol else 'not ') + norm(t) for t, pol in tests)[:90]}` drops the number {bad[0]} for the total {bad[1]} "
+                              f"(max_multiplicity {bad[2]}): only the total and 0 need no element of their own - with multiplicities a number above the total is a valid input "
+                              "(MinGenSet([3], total=2, max_multiplicity=3) must return {1, 1}, not [2])", f.loc(c))
+            else:
+                rep.ok(RID, key, "only numbers equal to the total or to 0 are dropped outright", f.loc(c))
+    if n == 0:
+        rep.ok(RID, "MinGenSet.__init__:trivial-values-only", "no number is dropped outright", f.loc())
+
+
 def multiplicity_is_a_count(prog: Program, rep, RID: str):
     """MinFlowDecompCycles hands its largest flow value to MinGenSet as max_multiplicity (the number of times an element may be repeated); MinGenSet
     rejects a value below 1, so the call must be preceded by a guard that leaves (returns None: no bound) when that value is below 1."""
@@ -213,12 +290,15 @@ def check(prog: Program, rep):
     rep.rule("C15.R2", "search protocol of MinGenSet.solve", floor=4)
     k_loop_protocol(prog, rep, "C15.R2", "MinGenSet", "solve", {"self.lowerbound"})
     start_not_empty(prog, rep, "C15.R2")
+    from rules.values import solver_members_exist
+    solver_members_exist(prog, rep, "C15.R2", ["MinGenSet", "MinSetCover"])
     rep.rule("C15.R3", "k-range reaches len(numbers)+1", floor=1)
     range_rule(prog, rep, "C15.R3", "MinGenSet", "solve")
     rep.rule("C15.R4", "None-default parameters", floor=1)
     none_defaults(prog, rep, "C15.R4")
     rep.rule("C15.R5", "complement removal is strict", floor=1)
     complement_removal(prog, rep, "C15.R5")
+    trivial_value_removal(prog, rep, "C15.R5")
     rep.rule("C15.R6", "with multiplicities the bound of the products x*g covers max(numbers), not only the total", floor=2)
     from rules.bounds import product_covers_rhs
     product_covers_rhs(prog, rep, "C15.R6")
